@@ -20,8 +20,7 @@ class VmIo:
                 self._unnamed.append(self._reg.get_by_enum(inst.param1))
             case IoOp.PRINT:
                 if len(self._unnamed) > 0:
-                    output.out(self._unnamed[0])
-                    self._unnamed.clear()
+                    output.out(self._unnamed.pop())
             case IoOp.PRINT_END:
                 output.newline()
             case IoOp.PRINTF:
@@ -52,5 +51,13 @@ class VmIo:
                     named[name] = self._reg.get_by_enum(reg)
                 else:
                     named[name] = self._call_stack.get_variable(name)
-        output.out(format_str.format(*self._unnamed, **named))
-        self._unnamed.clear()
+        # Only the values belonging to this printf: a routine called to
+        # compute one of them may itself have output pending or printed.
+        num_unnamed = sum(
+            (1 for field in string.Formatter().parse(format_str)
+             if field[1] is not None
+             and (len(field[1]) == 0 or field[1].isdecimal())))
+        first = len(self._unnamed) - num_unnamed
+        unnamed = self._unnamed[first:]
+        del self._unnamed[first:]
+        output.out(format_str.format(*unnamed, **named))
